@@ -82,7 +82,17 @@ class Check:
                             pass
             return (r.returncode, val, r.stderr.decode("utf-8", "replace") + ("" if val is not None else out[-2000:]))
         with concurrent.futures.ThreadPoolExecutor(jobs or NCPU) as ex:
-            return list(ex.map(one, cmds))
+            res = list(ex.map(one, cmds))
+        # A worker killed by SIGKILL was not killed by anything the code under test did (a crash is SIGSEGV/SIGABRT/..., a
+        # watchdog SIGALRM): that is the kernel's out-of-memory killer on a loaded machine.  Run those again, one at a
+        # time; a second SIGKILL is a resource problem of the harness (exit 2), never a verdict about the property.
+        for i, (rc, val, err) in enumerate(res):
+            if rc == -9:
+                sys.stderr.write("worker killed by SIGKILL (out of memory?), running it again alone: %s\n" % " ".join(cmds[i])[:300])
+                res[i] = one(cmds[i])
+                if res[i][0] == -9:
+                    self.harness_error("worker killed by SIGKILL twice (out of memory): %s" % " ".join(cmds[i])[:300])
+        return res
 
     # ---- verdicts ----------------------------------------------------------------------------
     def write_replay(self, obj):
